@@ -185,6 +185,7 @@ class Interp(object):
         self.render_cache = {}
         self.serials = {}
         self._keepalive = []
+        self.set_orders = {}
         self._ex = {}
         self._ev = {}
         for name in dir(self):
@@ -443,6 +444,7 @@ class Interp(object):
             self.render_cache = {}
             self.serials = {}
             self._keepalive = []
+            self.set_orders = {}
             sstr._fresh[0] = 0
             sstr.BOUND_ORACLE[0] = self.tight_bound
             for h in self.path_hooks:
